@@ -1265,6 +1265,8 @@ def run_one(i, tier, base):
         if sweep:
             idx, L = pending[frng.randrange(len(pending))]
             cap = 400 if tier == 'thorough' else 150
+            if cfg.get('corpus_start'):
+                cap = 80       # bigger molecules: each replay costs more, stay inside the soft time limit
             if 0 < L:
                 js = list(range(1, L + 1)) if L <= cap else sorted(frng.sample(range(1, L + 1), cap))
                 for j in js:
